@@ -256,6 +256,22 @@ def has_structural_cycle(mgr, among=None):
     return any(size > 1 for _, size in comp.values())
 
 
+def declared_structural_cycle(mgr):
+    """A non-trivial SCC in the graph a -> b iff targets(a) & dependencies(b), built from the task OBJECTS (what each
+    task declares), not from the manager's rtasks index."""
+    tasks = dict(mgr.tasks)
+    by_dep = {}
+    for tid, t in tasks.items():
+        for d in t.dependencies:
+            by_dep.setdefault(d, set()).add(tid)
+    g = {tid: set() for tid in tasks}
+    for tid, t in tasks.items():
+        for x in t.targets:
+            g[tid] |= by_dep.get(x, set())
+    comp = sccs({k: [x for x in v if x != k] for k, v in g.items()})
+    return any(size > 1 for _, size in comp.values())
+
+
 def triggered(mgr, ref):
     """Task ids reachable in the ordering graph from the tasks reading ref or its owners."""
     start = set()
